@@ -8,6 +8,19 @@ PY = "/venv/bin/python"
 
 # id -> (technique, level text, level note, design ref)
 CHECKS = {
+    "C06": ("exhaustive enumeration of all stabilizer groups (n<=5 quick, n<=6 thorough) + class-stratified construction vs. LC-orbit oracle (bijection id <-> orbit)",
+            "Quick visits every stabilizer group on 2..5 qubits and ~50k constructed six-qubit groups covering all 760 orbits; thorough "
+            "enumerates all 4 922 775 six-qubit groups. The partition induced by the library's id must equal the partition into "
+            "local-complementation orbits of the graph form (both directions), ids must be exactly 0..K-1, representation-independent.",
+            "Trusted: Van den Nest theorem (LC-equivalence = local-complementation orbit), own group enumeration (count-checked), LC oracle self-test.",
+            "DESIGN.md §4 C06"),
+    "C05": ("exhaustive BFS on the LC-class quotient graph (all classes x coupled pairs x 36 local pairs) + witness circuits + Hypothesis competitor circuits (metamorphic: compressed cost <= k)",
+            "The minimum two-qubit count of every class on every connectivity is computed by complete breadth-first search and compared with all "
+            "5962 table entries and with delivered circuits of representatives and constructed members; every gap is confirmed by a witness circuit "
+            "validated by dense simulation and by the library's own compression. 570 genuine gaps are listed as known findings (keyed by entry and "
+            "counts), so any other gap, or a listed one getting worse, is a violation.",
+            "Trusted: the pencil-and-paper reduction of 'all competitor circuits' to the class graph (DESIGN §4 C05), LC-orbit oracle; the competitor-circuit relation and the witnesses do not depend on them.",
+            "DESIGN.md §4 C05"),
     "C18": ("exhaustive enumeration of all small matrices + Hypothesis (4 distributions, collect-then-shrink) vs. brute-force span/kernel oracle",
             "All 35 978 binary matrices with m*n <= 12 are enumerated in every run and larger shapes (up to 40 x 28, the shapes the "
             "layer search uses) are sampled by Hypothesis; outputs are compared with an independent bitmask elimination that is itself "
